@@ -1,8 +1,11 @@
 #!/usr/bin/env python3
-# Applies every seeded change under /verif/seeded/<id>/patch.diff to /repo in turn, runs the check of its property,
-# restores /repo, and prints which checks caught which change. /repo must be clean.
+# Applies every seeded change under /verif/seeded/<id>/patch.diff to a scratch worktree of /repo (HEAD) in turn, runs the check of
+# its property against that worktree (--repo), and prints which checks caught which change. /repo itself is not touched.
 import json,os,subprocess,sys
-assert subprocess.run(['git','-C','/repo','status','--porcelain'],capture_output=True,text=True).stdout.strip()=='', "/repo not clean"
+WT='/tmp/seeded-wt-%d'%os.getpid()
+assert subprocess.run(['git','-C','/repo','worktree','add','--detach',WT,'HEAD'],capture_output=True,text=True).returncode==0
+import atexit
+atexit.register(lambda: subprocess.run(['git','-C','/repo','worktree','remove','--force',WT],capture_output=True))
 only=sys.argv[1:] 
 rows=[]
 for d in sorted(os.listdir('/verif/seeded')):
@@ -11,15 +14,15 @@ for d in sorted(os.listdir('/verif/seeded')):
     if only and not any(o in d for o in only): continue
     meta=json.load(open(p+'/meta.json'))
     props=[meta['property']]+meta.get('also_check',[])
-    r=subprocess.run(['git','-C','/repo','apply',p+'/patch.diff'],capture_output=True,text=True)
+    r=subprocess.run(['git','-C',WT,'apply',p+'/patch.diff'],capture_output=True,text=True)
     if r.returncode!=0:
         rows.append((d,'PATCH DOES NOT APPLY',r.stderr.strip()[:100])); continue
     try:
         for prop in props:
-            c=subprocess.run(['/verif/check',prop,'--no-evidence'],capture_output=True,text=True,cwd='/verif')
+            c=subprocess.run(['/verif/check',prop,'--repo',WT,'--no-evidence'],capture_output=True,text=True,cwd='/verif')
             viol=[l for l in c.stdout.splitlines() if l.startswith('VIOLATION') or l.startswith('UNDECIDED')]
             obl=[l.strip() for l in c.stdout.splitlines()+c.stderr.splitlines() if l.strip().startswith('obligation ')]
             rows.append((d,prop,f'exit={c.returncode}', '; '.join(o.split(' [')[0].replace('obligation ','') for o in obl)[:300] or ' '.join(viol)[:200]))
     finally:
-        subprocess.run(['git','-C','/repo','checkout','--','.'],check=True)
+        subprocess.run(['git','-C',WT,'checkout','--','.'],check=True)
 for r in rows: print(' | '.join(r))
